@@ -22,7 +22,7 @@ def serial_reference(progs, admission):
             elif e[1] in cont:
                 del cont[e[1]]
                 changed = True
-        if commit and changed:
+        if commit == 1 and changed:
             hist.append((hist[-1][0] + 1, cont))
     return hist
 
@@ -164,7 +164,7 @@ def _is_preemption(log, i, t):
 
 W1 = [0, 0, [[0, 2, 1]], 1]
 W2 = [0, 0, [[0, 3, 2], [1, 2]], 1]
-WR = [0, 0, [[0, 2, 7]], 0]
+WR = [0, 0, [[0, 2, 7]], 2]
 R = [1, None]
 P = [2, 1]
 
